@@ -574,6 +574,13 @@ func (fc *FnCtx) typeFacts(v Val, na Term) Term {
 	case KIface:
 		return and(app(">=", v.Tag, "0"), implies(eq(v.Tag, "0"), eq(v.S, "0")))
 	case KArr:
+		if len(v.Fs) > 0 {
+			var fs []Term
+			for _, f := range v.Fs {
+				fs = append(fs, fc.typeFacts(f, na))
+			}
+			return and(fs...)
+		}
 		if a, ok := v.T.Underlying().(*types.Array); ok {
 			if lo, hi, ok := intRange(a.Elem()); ok {
 				return fmt.Sprintf("(forall ((i Int)) (! (and (<= %s (select %s i)) (<= (select %s i) %s)) :pattern ((select %s i))))", lo, v.S, v.S, hi, v.S)
